@@ -336,7 +336,9 @@ def drive(gw, tr, ref, steps):
                 kind_name = "TransportError" if type(e).__name__ in ("TransportFailedError", "TransportReadError") else type(e).__name__
                 real_out = ("error", kind_name, attrs)
             except Exception as e:  # noqa: BLE001
-                diffs.append(({"C03"} | ({"C02"} if decode(line) is None else set()), f"step {i} {line!r}: non-library exception {type(e).__name__}: {e}"))
+                names_unknown = exp[0] == "error" and exp[1] in ("MissingNodeError", "MissingChildError")  # C04: "fails with an error that names that node or child"
+                diffs.append(({"C03"} | ({"C02"} if decode(line) is None else set()) | ({"C04"} if names_unknown else set()),
+                              f"step {i} {line!r}: non-library exception {type(e).__name__}: {e}" + (f" (expected {exp[1]})" if names_unknown else "")))
                 real_out = ("crash", type(e).__name__, {})
             if real_out[0] != "crash":
                 d = decode(line)
@@ -388,7 +390,9 @@ def drive(gw, tr, ref, steps):
         rv, xv = real_view(gw), ref.view()
         if rv != xv:
             # a rejected gateway-version presentation may legitimately differ only if the model was lenient
-            diffs.append(({"C04", "C13", "C11"}, f"step {i} {st!r}: registry {rv} expected {xv}"))
+            # which node is believed to sleep is C07's state: "sleeping" is index 6 of a node's view
+            flag = any(n_ in xv and rv[n_][6] != xv[n_][6] for n_ in rv)
+            diffs.append(({"C04", "C13", "C11"} | ({"C07"} if flag else set()), f"step {i} {st!r}: registry {rv} expected {xv}"))
             ref.nodes = {n: {"type": d[0], "ver": d[1], "battery": d[2], "heartbeat": d[3], "sketch_name": d[4], "sketch_version": d[5],
                              "sleeping": d[6], "reboot": gw.nodes[n].reboot,
                              "children": {c: {"type": ch[0], "desc": ch[1], "values": dict(ch[2])} for c, ch in d[7].items()}} for n, d in rv.items()}
@@ -411,7 +415,11 @@ def drive(gw, tr, ref, steps):
             ref.version = gw.protocol_version
         rp = {k: enc(m.node_id, m.child_id, m.command, m.ack, m.message_type, m.payload) for k, m in gw._message_buffer.set_messages.items()}
         if rp != ref.pending:
-            diffs.append(({"C12", "C07"} if kind == "send" else ({"C07"} | ({"C08"} if ref.fail_set else set())), f"step {i} {st!r}: buffered {rp} expected {ref.pending}"))
+            # a held command that is neither held any more nor was handed to the transport in this step: silently discarded (C12)
+            written_now = {w.rstrip("\n") for w in tr.writes[before_w:]}
+            lost = [k for k, line in ref.pending.items() if k not in rp and line.rstrip("\n") not in written_now]
+            diffs.append(({"C12", "C07"} if kind == "send" else ({"C07"} | ({"C08"} if ref.fail_set else set()) | ({"C12"} if lost else set())),
+                          f"step {i} {st!r}: buffered {rp} expected {ref.pending}" + (f" (discarded: {lost})" if lost else "")))
             ref.pending = dict(rp)
     return diffs
 
